@@ -295,10 +295,9 @@ class DataProxy:
         return ret
 
     def update(self, *args: Any, **kwargs: Any) -> None:
-        if kwargs:
-            for key, value in kwargs.items():
-                self[key] = value
-        elif args:
+        # NOTE: like dict.update, the positional argument (if any) is applied
+        # first, then the keyword arguments - both, when both are given.
+        if args:
             # TODO: complain if arity>1
             arg = args[0]
             if isinstance(arg, dict):
@@ -308,6 +307,8 @@ class DataProxy:
                 # TODO: be stricter about input in this case
                 for pair in arg:
                     self[pair[0]] = pair[1]
+        for key, value in kwargs.items():
+            self[key] = value
 
 
 class Config(DataProxy):
